@@ -36,6 +36,8 @@ pub fn alphabet() -> Vec<String> {
     add(&["EST", "cet", "GMT+3", "GMT-3:30", "GMT+19", "TMT", "UTC"]);
     // clock forms
     add(&["11:30", "23:59:59", "0:00", "24:00", "12:30 pm", "11pm", "3:35 am"]);
+    // clock forms one past the bound of a field (what a widened pattern would start to accept)
+    add(&["23:59:60", "23:60", "25:00", "11:30:99", "13 pm", "0:0", "GMT+3:60"]);
     // percent spellings
     add(&["10%", "%10", "-5%", "1,51,510%"]);
     // atom syntax, valid and malformed
